@@ -126,6 +126,17 @@ def run_replay(ctx, rng):
             bad.append((c, {"first": r1, "fresh": r2}, 2))
         elif "result" in runs[0]:
             ok_runs += 1
-    summary = {"e2e_phase": "run", "e2e_instances": len(cases), "e2e_instances_completed_normally": ok_runs,
+    # the log of each normally completed replay against the model: its notes (per tick run) and its
+    # outcome must be those of some valid decision string of the model (Sim/E2ELog.v)
+    log_cases = [(c, (r1.get("runs") or [{}])[0]) for c, r1 in zip(cases, first)]
+    log_cases = [(c, run) for c, run in log_cases if "result" in run and "log" in run]
+    if log_cases:
+        imports = ("From Coq Require Import List NArith String.\nFrom HV Require Import Sim.Model Sim.Run Sim.E2E "
+                   "Sim.E2ELog.\nImport ListNotations.")
+        verd = vlib.coq_eval(ctx, imports, [sim.e2e_log_term(c, run) for c, run in log_cases])
+        for (c, run), v in zip(log_cases, verd):
+            if v:
+                bad.append((c, {"run": run, "note": "log/outcome of the compiled run is not a run of the model"}, 1))
+    summary = {"e2e_phase": "run", "e2e_logs_matched_against_model": len(log_cases), "e2e_instances": len(cases), "e2e_instances_completed_normally": ok_runs,
                "e2e_sample": {"case": cases[0], "run": (first[0].get("runs") or [None])[0]}}
     return summary, bad
